@@ -438,8 +438,11 @@ func (s *store) MatchTerms(field index.Field) (list posting.List, timestamps pos
 		query.AddMust(bluge.NewTermQuery(string(field.GetBytes())).SetField(field.Key.Marshal()))
 	case *index.FloatTermValue:
 		query = bluge.NewBooleanQuery()
+		// Match the full-precision prefix-coded token of the numeric field. Its decimal-text
+		// token is not unique: every int64 whose float64 form is a NaN (the values within 2^52
+		// of math.MaxInt64 / math.MinInt64) is rendered as "NaN", so they would all match each other.
 		query.AddMust(bluge.NewTermQuery(
-			strconv.FormatFloat(field.GetFloat(), 'f', -1, 64)).
+			string(numeric.MustNewPrefixCodedInt64(numeric.Float64ToInt64(field.GetFloat()), 0))).
 			SetField(field.Key.Marshal()))
 	case nil:
 		return roaring.NewPostingList(), roaring.NewPostingList(), nil
